@@ -1302,6 +1302,9 @@ def import_calls():
     out.append({"kind": "autoload", "text": "from .c16pkg usepulses *\n" + prog + "from .c16pkg usepulses *\n", "with_path": True, "expect": "JaqalParseError"})
     out.append({"kind": "autoload", "text": "from .c16pkg usepulses x\n" + prog, "with_path": True, "expect": "JaqalParseError"})
     out.append({"kind": "autoload", "text": prog, "with_path": True, "expect": "JaqalError"})
+    # names the file system cannot even look up (longer than 255 characters): the module cannot be found
+    for mod in ("." + "m" * 300, "m" * 300, "." + "p" * 5000, ".c16pkg." + "s" * 300, "." + "a" * 256 + ".b"):
+        out.append({"kind": "autoload", "text": f"from {mod} usepulses *\n" + prog, "with_path": True, "expect": "ImportError"})
     # an import path that does not exist / is not a directory: the module cannot be found
     for ip in ("/nonexistent-c16-dir", "/etc/passwd", ""):
         for mod in (".nosuch", ".c16pkg", "nosuch"):
